@@ -323,6 +323,18 @@ std::string stress_input(const std::string &fam, long n) {
 		s += " #x\nM(a)\n#define N(x, y)";
 		for (long i = 0; i < n; i++) s += (i % 3 == 0 ? " x" : i % 3 == 1 ? " (y)" : " +");
 		s += "\nN(1, 2)\n";
+	} else if (fam == "callargs") {
+		// a call with n arguments nested in the argument list of another call: n + 3 argument values are open at once
+		s = "int f();\nint g(int a, int b) {\n\treturn f(a, f(";
+		for (long i = 0; i < n; i++) s += (i ? ", " : "") + std::string(i % 3 == 0 ? "a" : i % 3 == 1 ? "b + " + std::to_string(i) : std::to_string(i));
+		s += "), b, f(a, b));\n}\n";
+	} else if (fam == "callnest") {
+		// calls nested n deep, each with an argument before and after the inner call
+		s = "int f();\nint g(int a) {\n\treturn ";
+		for (long i = 0; i < n; i++) s += "f(a, ";
+		s += "a";
+		for (long i = 0; i < n; i++) s += ", " + std::to_string(i) + ")";
+		s += ";\n}\n";
 	} else if (fam == "strparts") {
 		s = "const char s[] =";
 		for (long i = 0; i < n; i++) s += " \"p" + std::to_string(i) + "\"";
@@ -500,6 +512,8 @@ static const std::vector<StressFam> &stress_fams() {
 		{"mixdesig", {0, 1, 8, 15, 16, 17, 18, 30, 31, 32, 33, 40}, false},
 		{"macrorepl", {0, 1, 2, 3, 4, 5, 6, 7, 10, 11, 12, 13, 23, 24, 25, 26, 49, 50, 51, 52, 101, 102, 103, 300}, true},
 		{"strparts", {1, 9, 10, 11, 20, 21, 22, 42, 43, 100}, false},
+		{"callargs", {0, 1, 7, 8, 15, 16, 28, 29, 30, 31, 32, 33, 60, 64, 65, 130, 300}, false},
+		{"callnest", {1, 2, 8, 15, 16, 17, 31, 32, 33, 34, 64, 65, 130}, false},
 		{"ctxdepth", {1, 7, 8, 9, 15, 16, 17, 31, 32, 33, 64}, true},
 		{"objmacros", {1, 31, 32, 33, 64, 65, 129, 300}, true},
 		{"params", {0, 1, 6, 7, 8, 9, 32, 33, 100}, false},
@@ -560,7 +574,7 @@ static void perturb_schedule(Plan &p, Rng &r, bool invocation) {
 	if (r.coin(1, 2)) p.placement = 1;
 	if (r.coin(1, 2)) p.gapmax = gaps[r.below(4)];
 	if (r.coin(2, 3)) p.fill = 1 + (int)r.below(3);
-	if (r.coin(1, 2)) p.free_policy = 1 + (int)r.below(2);
+	if (r.coin(1, 2)) p.free_policy = 1 + (int)r.below(3);
 	if (r.coin(1, 2)) p.realloc_policy = 1;
 	if (r.coin(1, 2)) p.zero_policy = 1;
 	if (r.coin(1, 2)) p.chunk = chunks[r.below(7)];
@@ -1242,7 +1256,7 @@ int main(int argc, char **argv) {
 		if (p.placement) st.axes["placement=descending"]++;
 		if (p.gapmax) st.axes["gaps"]++;
 		if (p.fill) st.axes["fill=" + std::to_string(p.fill)]++;
-		st.axes[p.free_policy == 1 ? "free=lifo-reuse" : p.free_policy == 2 ? "free=keep-contents" : "free=poison-noreuse"]++;
+		st.axes[p.free_policy == 1 ? "free=lifo-reuse" : p.free_policy == 2 ? "free=keep-contents" : p.free_policy == 3 ? "free=lifo-reuse-stale-contents" : "free=poison-noreuse"]++;
 		if (p.realloc_policy) st.axes["realloc=in-place"]++; else st.axes["realloc=always-move"]++;
 		if (p.zero_policy) st.axes["malloc(0)=NULL"]++;
 		if (p.chunk) st.axes["chunk=" + std::to_string(p.chunk)]++;
